@@ -55,6 +55,10 @@ Proof. vm_compute. reflexivity. Qed.
 Theorem check_escape_consults_locality : check_escape_iterates_marks && check_escape_reports = true.
 Proof. vm_compute. reflexivity. Qed.
 
+(* the taint visitor skips call instructions (callees are checked in their own contexts) but not builtin calls *)
+Theorem check_escape_checks_builtins : check_escape_skips_builtins = false.
+Proof. vm_compute. reflexivity. Qed.
+
 (* non-vacuity: a program with a go statement; the store before the go is Local, the one after it is not, and the
    goroutine's load through its parameter is not *)
 Definition ex_prog : prog :=
